@@ -177,4 +177,31 @@ theorem guards_as_modelled :
     Chai.modelGuards.all (fun r => Gen.raiiGuards.lookup r.1 == some r.2) = true := by
   decide
 
+/-- a row of the census of primitive definitions agrees with the model: a non-static wrapper of the engine only forwards to the primitive
+    of the same name; every other definition does to the Stack_Holder exactly what the model's primitive does to the model state -/
+def PrimRowOK (r : String × Bool × List String) : Prop :=
+  if r.2.1 = false ∧ r.1 ∈ ["new_scope", "pop_scope", "new_stack", "pop_stack", "new_function_call", "pop_function_call"] then r.2.2 = ["forward"]
+  else ∃ g, Chai.modelPrimitive r.1 = some g ∧ ∀ s : St, Chai.applyEffects r.2.2 s = g s
+
+/-- **the push / pop primitives are the model's**: for every definition of `new_scope`, `pop_scope`, `new_stack`, `pop_stack`,
+    `new_function_call`, `pop_function_call` and of the Stack_Holder helpers they call in the current source, the effects its body has on the
+    Stack_Holder (read off the source by extract/e_raii.py on every run: pushes and pops of the scope list, the stack list and the saved-parameter
+    list, the call depth, the release of the saved parameters at depth 0 — in textual order) compose to `St.pushScope`, `St.popScope`,
+    `St.pushStack`, `St.popStack`, `St.enterCall`, `St.leaveCall`, for every state; the engine's convenience wrappers only forward.  So a push
+    that forgets the parameter list, a pop that pops one list but not the other, or a wrapper that stops forwarding breaks this theorem. -/
+theorem primitives_are_the_model's : ∀ r ∈ Gen.raiiPrimDefs, PrimRowOK r := by
+  intro r hr
+  simp only [Gen.raiiPrimDefs, List.mem_cons, List.not_mem_nil, or_false] at hr
+  rcases hr with rfl | rfl | rfl | rfl | rfl | rfl | rfl | rfl | rfl | rfl | rfl | rfl | rfl
+  all_goals first
+    | (simp [PrimRowOK]; done)
+    | (simp [PrimRowOK, Chai.modelPrimitive, Chai.applyEffects, Chai.applyEffect]; intro s; rfl)
+    | (simp [PrimRowOK, Chai.modelPrimitive, Chai.applyEffects, Chai.applyEffect]; done)
+    | (simp [PrimRowOK, Chai.modelPrimitive, Chai.applyEffects, Chai.applyEffect]; intro s; simp [St.leaveCall])
+
+/-- … and the six primitives are all there (non-vacuity of the statement above) -/
+theorem primitives_present :
+    ["new_scope", "pop_scope", "new_stack", "pop_stack", "new_function_call", "pop_function_call"].all
+      (fun p => Gen.raiiPrimDefs.any (fun r => r.1 == p && r.2.1)) = true := by decide
+
 end ChaiVerif.C09
